@@ -517,5 +517,6 @@ func checkC05On(c *Ctx, p *Prog, cfg string) {
 	checkC05NewInputBehind(c, p, sfx)
 	if sfx == "" {
 		checkC05EscapeSingle(c)
+		checkRound4Misc(c, "C05")
 	}
 }
